@@ -295,8 +295,7 @@ namespace c15
       // far away and large: exercises absolute tolerances
       static const double off[3] = {1000.0, -2000.0, 500.0};
       std::array<double, D> r = geo_map<D>(4, v, idx);
-      double sc_ = getenv("C15_SC") ? atof(getenv("C15_SC")) : 64.0, of_ = getenv("C15_OF") ? atof(getenv("C15_OF")) : 1.0;
-      for(int i = 0; i < D; ++i) r[(size_t)i] = sc_ * r[(size_t)i] + of_ * off[i];
+      for(int i = 0; i < D; ++i) r[(size_t)i] = 64.0 * r[(size_t)i] + off[i];
       return r;
     }
     if(kind == 1 || kind == 2 || kind == 4)
@@ -426,6 +425,9 @@ namespace c15
       for(int i = 0; i < SI::NV; ++i) for(int j = 0; j < D; ++j) xv[(size_t)i][(size_t)j] = LD(md.vtx[md.cells[cell][(size_t)i]][(size_t)j]);
       init();
     }
+
+    /// from explicit vertex coordinates in local order
+    explicit CellGeom(const std::array<std::array<LD, D>, SI::NV>& x) : xv(x) { init(); }
 
     void init()
     {
